@@ -226,6 +226,16 @@ class MetricTranslator:
         if not (isinstance(loop.target, ast.Name) and isinstance(loop.iter, ast.Call) and unparse(loop.iter.func) == "range"):
             raise AnalysisError(f"{fi.name}: unsupported loop header")
         ivar = loop.target.id
+        # the loop (and the buffer it fills) covers every coordinate: range(n) with n the vector length
+        if len(loop.iter.args) != 1 or loop.iter.keywords:
+            raise MetricViolation(f"{fi.name}:{loop.lineno}: the element loop '{unparse(loop.iter)}' does not run over all coordinates")
+        try:
+            kn, en = self._expr(loop.iter.args[0], env, ops, [], fi, depth)
+        except AnalysisError:
+            kn, en = None, None
+        if kn != "scalar" or en != ops.n:
+            raise MetricViolation(f"{fi.name}:{loop.lineno}: the element loop '{unparse(loop.iter)}' does not run over all "
+                                  "coordinates (range(x.shape[0]) expected)")
         lenv = dict(env)
         lenv[ivar] = ("index", None)
 
